@@ -83,7 +83,7 @@ func simplifyStmt(s Stmt) [][]Stmt {
 		var out [][]Stmt
 		for i := range n.Body {
 			t := append(append([]Stmt{}, n.Body[:i]...), n.Body[i+1:]...)
-			out = append(out, []Stmt{&ForRange{Var: n.Var, T: n.T, Lo: n.Lo, Hi: n.Hi, Incl: n.Incl, Body: t}})
+			out = append(out, []Stmt{&ForRange{Var: n.Var, T: n.T, Lo: n.Lo, Hi: n.Hi, Step: n.Step, Incl: n.Incl, Body: t}})
 		}
 		return out
 	case *Match:
